@@ -97,6 +97,10 @@ def generate(seed, idx, tier):
     f0 = gen_frame_spec(rng, shape, 0, permute=True)
     op = {'op': 'write', 'frame': f0}
     op.update(gen_wopts(rng, f0['nrows'], has_cat, knobs))
+    if rng.random() < 0.03 and not shape['parts']:
+        # a dataset of more than 32 row groups
+        f0['nrows'] = rng.randrange(34, 44)
+        op['rgo'] = 1
     op['has_nulls'] = gen_has_nulls(rng, shape)
     ops.append(op)
     nsteps = rng.randrange(1, 7)
@@ -132,6 +136,8 @@ def generate(seed, idx, tier):
              'entry': rng.choice(entries)}
         if o['entry'] == 'wrg-iter':
             o['cuts'] = [rng.random() for _ in range(rng.choice((0, 1, 2)))]
+        if o['entry'] != 'write' and multi and rng.random() < 0.2:
+            o['sort_key'] = 'const'
         if o['op'] == 'append' and o['entry'] == 'write' and \
                 rng.random() < 0.15:
             # carried out by a different process: whatever this process
